@@ -74,6 +74,41 @@ func (x *execution) applyStep(i int) {
 		x.st.FailNext = s.HeadFail
 	}
 	u := x.w.Client(actorUser)
+	if x.h.Finalizers {
+		// the revision controller has seen every revision that exists by now
+		for _, o := range x.w.ListObjs(x.kind.revGK()) {
+			if !isRevOf(o) || sim.Terminating(o) {
+				continue
+			}
+			ro := &unstructured.Unstructured{Object: o}
+			if len(ro.GetFinalizers()) == 0 {
+				ro.SetFinalizers([]string{"revision.pkg.crossplane.io"})
+				if err := x.w.Client(actorRevctl).Update(nil, ro); err != nil { //nolint:staticcheck // ctx unused
+					panic(fmt.Sprintf("revision controller finalizer: %v", err))
+				}
+			}
+		}
+	}
+	if s.DeleteRev != "" {
+		if rev := x.pickRevision(s.DeleteRev); rev != nil && !sim.Terminating(rev) {
+			if err := u.Delete(nil, &unstructured.Unstructured{Object: rev}); err != nil { //nolint:staticcheck // ctx unused
+				panic(fmt.Sprintf("user delete of a revision: %v", err))
+			}
+		} else {
+			x.skippedOps++
+		}
+	}
+	if s.Release {
+		for _, o := range x.w.ListObjs(x.kind.revGK()) {
+			if isRevOf(o) && sim.Terminating(o) {
+				ro := &unstructured.Unstructured{Object: o}
+				ro.SetFinalizers(nil)
+				if err := x.w.Client(actorRevctl).Update(nil, ro); err != nil { //nolint:staticcheck // ctx unused
+					panic(fmt.Sprintf("revision controller release: %v", err))
+				}
+			}
+		}
+	}
 	if s.Source != "" || s.Limit != nil || s.Activation != "" || s.Pull != "" {
 		cur := x.w.GetObj(x.kind.pkgKey())
 		create := cur == nil
